@@ -180,6 +180,11 @@ def actions(c):
         if len(c.parent) == 1:
             raise Skip()
         c.a.canonicalise(); lossless(c.a); c.a.compress()
+    def comp_list():
+        # per-node limits equal to the current bond dimensions (list form of temp_m_trunc, same layout as bond_dims): lossless
+        if len(c.parent) == 1:
+            raise Skip()
+        c.a.canonicalise(); lossless(c.a); c.a.compress(temp_m_trunc=list(c.a.bond_dims))
     def cp():
         c.a = c.a.copy()
     def cx():
@@ -189,7 +194,7 @@ def actions(c):
     for k, f in (("a=a.add(b)", add_ab), ("a=b.add(a)", add_ba), ("a=a+a", add_aa), ("a=a.scale(2)", sc2), ("a=a.scale(.6+.8j)", scj),
                  ("b.scale(-1.5,inplace)", scin), ("a.coeff*=.25", coeff), ("a=H.apply(a)", applyH), ("a=H.apply(a,canonicalise)", applyHc),
                  ("b=H@b", matmulH), ("a=P.apply(a)", applyP), ("a.canonicalise()", cano), ("b.canonicalise()", canob),
-                 ("a.compress(lossless)", comp), ("a=a.copy()", cp), ("a=a.to_complex()", cx), ("a.normalize(norm_to_coeff)", norm_)):
+                 ("a.compress(lossless)", comp), ("a.compress(per-node list = current dims)", comp_list), ("a=a.copy()", cp), ("a=a.to_complex()", cx), ("a.normalize(norm_to_coeff)", norm_)):
         A[k] = f
     return A
 
